@@ -4,6 +4,7 @@
 // direct-oracle faults (ledger, canaries, allocation, addresses, aliasing).
 mod elems;
 mod ops;
+mod shapes;
 
 use elems::*;
 use std::alloc::{GlobalAlloc, Layout, System};
@@ -34,6 +35,14 @@ fn parse_line(s: &str) -> Vec<Vec<u64>> {
 
 fn main() {
     let args: Vec<String> = std::env::args().collect();
+    if args[1] == "--shapes" {
+        std::panic::set_hook(Box::new(|_| {}));
+        shapes::run();
+        let faults = with_ctx(|c| std::mem::take(&mut c.faults));
+        let mut ff = std::fs::File::create(&args[2]).unwrap();
+        for fl in faults { writeln!(ff, "FAULT -1 {}", fl).unwrap(); }
+        return;
+    }
     let path = &args[1];
     let fault_path = &args[2];
     let marker = args.get(3).cloned();
